@@ -26,9 +26,26 @@ type chopConn struct {
 	net.Conn
 	sizes []int
 	i     int
+	// hold: writes are collected and go out as one piece on flush (a client that writes its last record and
+	// closes at once: record and close_notify reach the server in the same read)
+	hold bool
+	held []byte
+}
+
+func (c *chopConn) flush() error {
+	c.hold = false
+	// crypto/tls sets the write deadline to "now" once it has sent its close_notify
+	_ = c.Conn.SetWriteDeadline(time.Now().Add(15 * time.Second))
+	_, err := c.Conn.Write(c.held)
+	c.held = nil
+	return err
 }
 
 func (c *chopConn) Write(p []byte) (int, error) {
+	if c.hold {
+		c.held = append(c.held, p...)
+		return len(p), nil
+	}
 	total := 0
 	for len(p) > 0 {
 		n := len(p)
@@ -53,6 +70,9 @@ type tlsCase struct {
 	SNI     string
 	ALPN    []string
 	Plan    *plan
+	// TLS12: the client speaks TLS 1.2; CloseWithLast: its last record and its close_notify leave in one piece
+	TLS12         bool
+	CloseWithLast bool
 }
 
 func genTLSCase(t *rapid.T) tlsCase {
@@ -76,6 +96,8 @@ func genTLSCase(t *rapid.T) tlsCase {
 		tc.Sizes = rapid.SliceOfN(rapid.IntRange(1, 3000), 1, 6).Draw(t, "sizes")
 	}
 	tc.AppCuts = genCuts(t, len(plain))
+	tc.TLS12 = rapid.Bool().Draw(t, "tls12")
+	tc.CloseWithLast = rapid.Bool().Draw(t, "closeWithLastRecord")
 	g := &gen{t: t, s: plain, tees: map[string]int{}, p: &plan{Expect: map[string][]byte{}, Classes: map[string]bool{}}}
 	sub, pos := g.list(0, 2, false)
 	match := map[string]any{}
@@ -129,7 +151,12 @@ func runTLSCase(t hx.TB, tc tlsCase) {
 		done <- err
 	}()
 	_ = cli.SetDeadline(time.Now().Add(20 * time.Second))
-	conn := tls.Client(&chopConn{Conn: cli, sizes: tc.Sizes}, rx.ClientTLS(tc.SNI, tc.ALPN))
+	ccfg := rx.ClientTLS(tc.SNI, tc.ALPN)
+	if tc.TLS12 {
+		ccfg.MaxVersion = tls.VersionTLS12
+	}
+	chop := &chopConn{Conn: cli, sizes: tc.Sizes}
+	conn := tls.Client(chop, ccfg)
 	var echoed bytes.Buffer
 	readerDone := make(chan struct{})
 	cerr := make(chan error, 1)
@@ -143,13 +170,23 @@ func runTLSCase(t hx.TB, tc tlsCase) {
 			_, _ = io.Copy(&echoed, conn)
 			close(readerDone)
 		}()
-		for _, seg := range hx.Split(tc.Plain, tc.AppCuts) {
+		segs := hx.Split(tc.Plain, tc.AppCuts)
+		for i, seg := range segs {
+			if tc.CloseWithLast && i == len(segs)-1 {
+				chop.hold = true
+			}
 			if _, err := conn.Write(seg); err != nil {
 				cerr <- fmt.Errorf("client write: %v", err)
 				return
 			}
 		}
-		cerr <- conn.CloseWrite()
+		err := conn.CloseWrite()
+		if chop.hold {
+			if ferr := chop.flush(); err == nil {
+				err = ferr
+			}
+		}
+		cerr <- err
 	}()
 	var herr error
 	select {
@@ -171,7 +208,7 @@ func runTLSCase(t hx.TB, tc tlsCase) {
 
 func describeTLS(tc tlsCase, evs []rx.Event) string {
 	var sb strings.Builder
-	fmt.Fprintf(&sb, "  plaintext: %d bytes, client writes cut at %v, wire pieces %v, sni=%s alpn=%v\n  routes: %s\n  trace:", len(tc.Plain), tc.AppCuts, tc.Sizes, tc.SNI, tc.ALPN, clipS(planJSON(tc.Plan), 1500))
+	fmt.Fprintf(&sb, "  plaintext: %d bytes, client writes cut at %v, wire pieces %v, sni=%s alpn=%v tls1.2=%v last record and close_notify in one piece=%v\n  routes: %s\n  trace:", len(tc.Plain), tc.AppCuts, tc.Sizes, tc.SNI, tc.ALPN, tc.TLS12, tc.CloseWithLast, clipS(planJSON(tc.Plan), 1500))
 	for _, e := range evs {
 		fmt.Fprintf(&sb, " %s/%s(read %d)", e.Kind, e.ID, len(e.Data))
 	}
